@@ -3,6 +3,7 @@ package props
 import (
 	"fmt"
 	"testing"
+	"time"
 
 	"github.com/openziti/storage/ast"
 	"github.com/openziti/storage/boltz"
@@ -364,6 +365,7 @@ func TestC02(t *testing.T) {
 		},
 		Gen:            genC02,
 		Run:            runC02,
+		CaseTimeout:    5 * time.Minute,
 		QuickChecks:    4000,
 		ThoroughFactor: 16,
 	})
